@@ -4,6 +4,7 @@ package parser
 
 import (
 	"regexp"
+	"strings"
 
 	"github.com/lmorg/murex/utils/ansi/codes"
 )
@@ -368,8 +369,16 @@ func Parse(block []rune, pos int) (pt ParsedTokens, syntaxHighlighted string) {
 				pt.pop = &pt.FuncName
 				pt.LastFuncName = pt.FuncName
 				pt.Parameters = make([]string, 0)
-				syntaxHighlighted = syntaxHighlighted[:len(syntaxHighlighted)-1]
-				ansiColour(hlPipe, block[i-1])
+				if strings.HasSuffix(syntaxHighlighted, string(block[i-1])) {
+					// recolour the `-` / `=` that was written by the previous iteration
+					syntaxHighlighted = syntaxHighlighted[:len(syntaxHighlighted)-1]
+					ansiColour(hlPipe, block[i-1])
+				} else {
+					// the `-` / `=` was escaped: it is already followed by a colour
+					// code, which must not be truncated
+					syntaxHighlighted += hlPipe
+					reset = append(reset, hlPipe)
+				}
 				ansiReset('>')
 				syntaxHighlighted += hlFunction
 			case i > 0 && (block[i-1] == '\t' || block[i-1] == ' ') && next('>'):
